@@ -229,12 +229,13 @@ def config_cases(js, defined, prb):
     for k in KEYS:
         out.append("arrays\t%s\t%s" % (k, g))
     for k in KEYS:
+        for n in prb:
+            out.append("byname\t%s\t%s\t%s" % (k, hexs(n.encode()), g))
+    for k in KEYS:
         nrows = len(js["registries"][k]["names"])
         out.append("count\t%s\t%s" % (k, g))
         for i in list(range(-2, nrows + 2)) + [1000, -2147483648, 2147483647]:
             out.append("byid\t%s\t%d\t%s" % (k, i, g))
-        for n in prb:
-            out.append("byname\t%s\t%s\t%s" % (k, hexs(n.encode()), g))
     return out
 
 
@@ -328,6 +329,12 @@ def spec_lines(lines, answers):
                 o = "fault"
             idx.append(i)
             out.append("spec\t%s\t%s\t%s\t%s" % (f[1], f[2], f[3], o))
+        elif f[0] == "byid" and a.startswith("ok\tcalled:"):
+            # id i is the id of the name getName(i) reports: what ran must be that name's own implementation
+            af = a.split("\t")
+            nm = af[2] if len(af) > 2 else "~"
+            idx.append(i)
+            out.append("spec\t%s\t%s\t%s\t%s" % (f[1], hexs(b"" if nm in ("-", "~") else nm.encode()), f[3], af[1] if nm != "~" else "fault"))
     return idx, out
 
 
@@ -343,8 +350,16 @@ def classify_case(js, line, model, ans):
     f = line.split("\t")
     k = f[1]
     kind = KIND_OF[k]
-    name = bytes.fromhex(f[2]).decode() if f[2] != "-" else ""
     a = ans.split("\t")
+    if f[0] != "byname":
+        what = "callById(%s)" % f[2] if f[0] == "byid" else f[0]
+        if not ans.startswith("ok"):
+            return "fault:" + a[0].split(":")[0], "%s registry: %s ended in %s (model: %s)" % (kind, what, ans, model)
+        if f[0] == "byid" and a[1].startswith("called:"):
+            nm = a[2] if len(a) > 2 else "~"
+            return "spec:misbinding-by-id", "%s registry: id %s is named '%s' by getName but callById runs %s" % (kind, f[2], nm, a[1][7:])
+        return "fault:lookup", "%s registry: %s misbehaved: %s (model: %s)" % (kind, what, ans, model)
+    name = bytes.fromhex(f[2]).decode() if f[2] != "-" else ""
     o = a[1] if len(a) > 1 else ans
     if not ans.startswith("ok"):
         return "fault:" + ans.split("\t")[0].split(":")[0], "lookup of %s '%s' ended in %s" % (kind, name, ans)
@@ -356,6 +371,51 @@ def classify_case(js, line, model, ans):
     if o == "unknown":
         return "spec:enabled-unknown", "%s '%s' is enabled in this configuration but the registry does not know the name" % (kind, name)
     return "fault:lookup", "lookup of %s '%s' misbehaved: %s" % (kind, name, o)
+
+
+def diagnose(js):
+    """plain-text reasons why registry_consts_ok is false (for the message only; the verdict is Coq's)"""
+    why = []
+    if not js["lookup_ok"]:
+        why.append("lookup functions not of the modelled shape")
+    for k in KEYS:
+        r = js["registries"][k]
+        kind = r["kind"]
+        ns, ps = r["names"], r["ptrs"]
+        if not r["lex_ok"]:
+            why.append("%s registry: unrecognised construct in the arrays" % kind)
+        if not ns or ns[-1] != [[], js["sentinel"]] and tuple(ns[-1]) != ([], js["sentinel"]):
+            why.append("%s registry: names array does not end with the unguarded sentinel" % kind)
+        body = ns[:-1]
+        if len(body) != len(ps):
+            why.append("%s registry: %d name rows but %d pointer rows" % (kind, len(body), len(ps)))
+        for i, ((gn, n), (gp, p_)) in enumerate(zip(body, ps)):
+            if list(gn) != list(gp):
+                why.append("%s registry row %d: name '%s' under %s but pointer %s under %s" % (kind, i, n, gn or "no guard", p_, gp or "no guard"))
+                break
+            if p_ != impl_of(kind, n):
+                why.append("%s registry row %d: name '%s' paired with %s" % (kind, i, n, p_))
+                break
+        seen = set()
+        for _, n in body:
+            if n in seen:
+                why.append("%s registry: name '%s' twice" % (kind, n))
+            seen.add(n)
+        for gs, n in body:
+            if gs and ("SNOOPY_CONF_%s_ENABLED_%s" % (kind.upper(), n)) not in gs:
+                why.append("%s registry: '%s' is not switched by its own feature guard but by %s" % (kind, n, gs))
+    used = set(g for k in KEYS for a in ("names", "ptrs") for gs, _ in js["registries"][k][a] for g in gs)
+    feat = set(g for g in used if re.match(r"SNOOPY_CONF_(DATASOURCE|FILTER|OUTPUT)_ENABLED_", g))
+    cf, hin = set(js["configure_features"]), set(js["confighin"])
+    if feat - cf:
+        why.append("guards no configure switch defines: %s" % sorted(feat - cf))
+    if cf - feat:
+        why.append("configure switches no registry row tests: %s" % sorted(cf - feat))
+    if cf != hin:
+        why.append("configure.ac and config.h.in disagree: %s" % sorted(cf ^ hin))
+    if (used - feat) - set(js["configure_generic"]):
+        why.append("other guards configure.ac never defines: %s" % sorted((used - feat) - set(js["configure_generic"])))
+    return why
 
 
 def check(run):
@@ -421,10 +481,7 @@ def check(run):
                 n_called.add((label, f[1], f[0], f[2]))
             faulted = not a.startswith("ok") or "\tfault" in a
             if faulted or i in spec_bad.get(ci, []):
-                if f[0] == "byname":
-                    sig, text = classify_case(js, l, mm, a)
-                else:
-                    sig, text = "fault:" + a.split("\t")[0].split(":")[0], "%s: implementation answered %s" % (l.split("\t")[0], a)
+                sig, text = classify_case(js, l, mm, a)
                 if sig not in seen_sig:
                     seen_sig.add(sig)
                     run.violation(sig, "sanitizer" if sig.startswith("fault") else "spec_violation",
@@ -446,16 +503,20 @@ def check(run):
                       {"stream": "generic", "failing_input": {"case": l, "implementation": a, "model": m_}, "cases": [l]})
         nv += 1
     # a configuration that cannot be built at all
-    if nobuild and nv == 0:
+    if nobuild and nv == 0 and not ok:
         label, defined, err = nobuild[0]
         run.violation("nobuild", "spec_violation",
                       "the registries do not compile in %d of %d configurations; first: %s (%s): %s" % (len(nobuild), len(cfgs), label, describe(universe, defined), err[-600:]),
                       {"stream": "config", "failing_input": {"configuration": describe(universe, defined), "defined": defined, "compiler": err[-1500:]},
                        "cases": ["arrays\tds\t" + glist(defined)]})
         nv += 1
+    if nobuild and ok:
+        run.notes.append("%d of %d configurations do not compile (first: %s: %s); the tables are aligned, so no configuration that builds can misbind: not a C13 verdict"
+                         % (len(nobuild), len(cfgs), nobuild[0][0], nobuild[0][2][-300:]))
     if not ok and nv == 0:
-        run.violation("proof:%s" % failed, "proof", "proof obligation no longer checks: %s\n%s\nnotes: %s" % (failed, log[-1500:], "; ".join(run.notes)),
-                      {"theorem": failed, "coq_log": log[-3000:], "translator_notes": run.notes})
+        why = diagnose(js)
+        run.violation("proof:%s" % failed, "proof", "proof obligation no longer checks: %s; %s\n%s" % (failed, "; ".join(why + run.notes)[:1500], log[-800:]),
+                      {"theorem": failed, "coq_log": log[-3000:], "translator_notes": run.notes, "diagnosis": why})
     if (mism_arrays or mism_calls) and nv == 0:
         label, defined, l, mm, a = (mism_arrays or mism_calls)[0]
         stream = "arrays" if mism_arrays else "calls"
@@ -522,8 +583,8 @@ def replay(run, path):
             ans, err = impl_answers(impl, js, defined, [l])
             a = ans[0]
             verdict = "ok"
-            if a == "nobuild":
-                verdict = "DOES-NOT-BUILD: " + (err or "")[-400:]
+            if a == "nobuild" or err:
+                verdict = "DOES-NOT-BUILD: " + (err or "")[-400:].replace("\n", " ")
             elif f[0] == "byname" and a.startswith("ok"):
                 si, sl = spec_lines([l], [a])
                 s = run_model(run, model, sl)[0]
